@@ -161,7 +161,7 @@ func decompressBounded(encoding string, data []byte, maxOutput int64) ([]byte, e
 	var out []byte
 	var err error
 	if maxOutput > 0 {
-		out, err = io.ReadAll(io.LimitReader(reader, maxOutput+1))
+		out, err = io.ReadAll(io.LimitReader(reader, capPlusOne(maxOutput)))
 	} else {
 		out, err = io.ReadAll(reader)
 	}
